@@ -483,6 +483,9 @@ def eval_abs(expr: Any, val: Dict[Any, int]) -> Any:
     if op in ("+", "-", "*", "//", "%"):
         a, b = eval_abs(expr[1], val), eval_abs(expr[2], val)
         return {"+": a + b, "-": a - b, "*": a * b, "//": a // b if b else 0, "%": a % b if b else 0}[op]
+    if op in ("^", "&", "|", "<<", ">>"):
+        a, b = eval_abs(expr[1], val), eval_abs(expr[2], val)
+        return {"^": lambda: a ^ b, "&": lambda: a & b, "|": lambda: a | b, "<<": lambda: a << b, ">>": lambda: a >> b}[op]()
     if op in ("==", "!=", "<", "<=", ">", ">="):
         a, b = eval_abs(expr[1], val), eval_abs(expr[2], val)
         return {"==": a == b, "!=": a != b, "<": a < b, "<=": a <= b, ">": a > b, ">=": a >= b}[op]
